@@ -495,10 +495,18 @@ class StackBuilder(object):
     same = mid in ("kfl", "rtl")
     mu_kfl = bool(mid == "multiunit" and s.chance(0.4))
     same = same or mu_kfl
+    # Deferred strictness (monotonic_at_every_step=False): finalize has real
+    # work to do only on lattices large enough for Dykstra not to converge.
+    every_step = not s.sub("every-step").chance(0.3)
+    big = bool(mid == "lattice" and not every_step)
+    if big:
+      n_feat = min(n_feat, 2)
     feats = []
     for i in range(n_feat):
       fs = s.sub("feature", i)
       sz = size if same else fs.weighted([(2, 5), (3, 3), (4, 1)])
+      if big:
+        sz = fs.weighted([(3, 2), (4, 3), (5, 3), (6, 3)])
       if fs.chance(0.25):
         f = gen_categorical_feature(fs, "f%d" % i, sz)
         f["cat_init"] = fs.choice(["uniform", "constant"])
@@ -525,9 +533,10 @@ class StackBuilder(object):
         "output_max": omax,
         "clip_inputs": s.chance(0.5),
         "interpolation": s.choice(["hypercube", "simplex"]),
-        "monotonic_at_every_step": not s.chance(0.3),
+        "monotonic_at_every_step": every_step,
         "calib_unbounded": s.chance(0.3),
-        "num_projection_iterations": s.choice([10, 10, 5, 15]),
+        "num_projection_iterations": (s.choice([1, 2, 10]) if big else
+                                      s.choice([10, 10, 5, 15])),
         "num_terms": s.integer(1, 3),
         "kernel_init": s.choice(["default", "linear_initializer",
                                  "random_monotonic_initializer"]),
@@ -1070,6 +1079,22 @@ class LayerBuilder(object):
       a["single_output"] = s.chance(0.6)
       omin, omax = gen_bounds(s)
       a["output_min"], a["output_max"] = omin, omax
+    # Sequential variant: one (n, d) tensor input, model unbuilt until first
+    # called - the shape in which user code loads TF-format checkpoints into a
+    # freshly constructed model (deferred restoration).
+    ok = kind in ("pwl", "lattice", "linear", "kfl", "cdf", "parallel") or (
+        kind == "rtl" and a["n_increasing"] == 0)
+    a["sequential"] = bool(ok and s.sub("sequential").chance(0.35))
+    if a["sequential"]:
+      for key in ("split_outputs", "separate_outputs"):
+        if key in a:
+          a[key] = False
+      if kind == "parallel":
+        a["single_output"] = True
+        for f in a["subs"]:
+          f["as_float"] = True
+      if kind == "rtl":
+        a["input_style"] = "tensor"
     return {"builder": "layer", "kind": kind, "args": a}
 
   @staticmethod
@@ -1083,10 +1108,21 @@ class LayerBuilder(object):
     return items[0] if v["single"] else items
 
   @staticmethod
-  def build(spec):
+  def build(spec, defer=False):
+    """defer=True (sequential specs only): returns an *unbuilt* Sequential,
+    as user code would before loading a TF-format checkpoint."""
     tf, keras, tfl = env.mods()
     kind, a = spec["kind"], spec["args"]
     ms = LayerBuilder._maybe_single
+    seq = bool(a.get("sequential"))
+    captured = []
+
+    def call(layer, x):
+      if seq:
+        captured.append(layer)
+        return None
+      return layer(x)
+
     if kind == "pwl":
       ins = _plain_inputs(keras, tf, 1)
       layer = tfl.layers.PWLCalibration(
@@ -1102,7 +1138,7 @@ class LayerBuilder(object):
           num_projection_iterations=a["num_projection_iterations"],
           split_outputs=a["split_outputs"],
           input_keypoints_type=a["input_keypoints_type"], name="the_layer")
-      y = layer(ins[0])
+      y = call(layer, ins[0])
     elif kind == "cat":
       ins = [keras.Input(shape=(1,), dtype=tf.int32, name="x0")]
       layer = tfl.layers.CategoricalCalibration(
@@ -1118,7 +1154,7 @@ class LayerBuilder(object):
       x = ins[0]
       if a["units"] > 1:
         x = keras.layers.Concatenate(axis=1)([x] * a["units"])
-      y = layer(x)
+      y = call(layer, x)
     elif kind == "lattice":
       dims = len(a["lattice_sizes"])
       ins = _plain_inputs(keras, tf, dims)
@@ -1146,7 +1182,7 @@ class LayerBuilder(object):
       x = keras.layers.Concatenate(axis=1)(ins) if dims > 1 else ins[0]
       if a["units"] > 1:
         x = keras.layers.RepeatVector(a["units"])(x)
-      y = layer(x)
+      y = call(layer, x)
     elif kind == "linear":
       n = a["num_input_dims"]
       ins = _plain_inputs(keras, tf, n)
@@ -1166,7 +1202,7 @@ class LayerBuilder(object):
       x = keras.layers.Concatenate(axis=1)(ins) if n > 1 else ins[0]
       if a["units"] > 1:
         x = keras.layers.RepeatVector(a["units"])(x)
-      y = layer(x)
+      y = call(layer, x)
     elif kind == "kfl":
       dims = a["dims"]
       ins = _plain_inputs(keras, tf, dims)
@@ -1184,7 +1220,7 @@ class LayerBuilder(object):
       x = keras.layers.Concatenate(axis=1)(ins) if dims > 1 else ins[0]
       if a["units"] > 1:
         x = keras.layers.RepeatVector(a["units"])(x)
-      y = layer(x)
+      y = call(layer, x)
     elif kind == "rtl":
       nu, ni = a["n_unconstrained"], a["n_increasing"]
       ins = _plain_inputs(keras, tf, nu + ni)
@@ -1223,7 +1259,7 @@ class LayerBuilder(object):
                               else "random_monotonic_initializer"),
           kernel_regularizer=_reg_build(a["kernel_regularizer"]),
           average_outputs=a["average_outputs"], name="the_layer", **kw)
-      y = layer(d)
+      y = call(layer, d)
       if isinstance(y, dict):
         y = [y[k] for k in sorted(y)]
     elif kind == "cdf":
@@ -1237,8 +1273,8 @@ class LayerBuilder(object):
           input_scaling_monotonicity=a["input_scaling_monotonicity"],
           sparsity_factor=a["sparsity_factor"], name="the_layer")
       x = keras.layers.Concatenate(axis=1)(ins) if dims > 1 else ins[0]
-      y = layer(x)
-      if a["reduction"] == "none":
+      y = call(layer, x)
+      if a["reduction"] == "none" and not seq:
         y = keras.layers.Flatten()(y)
     else:
       subs = a["subs"]
@@ -1249,7 +1285,16 @@ class LayerBuilder(object):
         layer.append(_calibrator(tfl, keras, f, a["output_min"],
                                  a["output_max"], "sub_%d" % i))
       x = keras.layers.Concatenate(axis=1)(ins) if len(subs) > 1 else ins[0]
-      y = layer(x)
+      y = call(layer, x)
+    if seq:
+      layers = []
+      if kind in ("lattice", "linear", "kfl") and a.get("units", 1) > 1:
+        layers.append(keras.layers.RepeatVector(a["units"]))
+      layers.extend(captured)
+      model = keras.Sequential(layers)
+      if not defer:
+        model(tf.zeros([1, len(ins)]))
+      return model
     if isinstance(y, (list, tuple)):
       y = keras.layers.Concatenate(axis=1)(list(y)) if len(y) > 1 else y[0]
     return keras.Model(inputs=ins, outputs=y)
@@ -1294,6 +1339,17 @@ class LayerBuilder(object):
   @staticmethod
   def bounds(spec):
     return None, None
+
+  @staticmethod
+  def can_defer(spec):
+    return bool(spec["args"].get("sequential"))
+
+  @staticmethod
+  def to_model_inputs_spec(tf, inputs, spec):
+    if spec["args"].get("sequential"):
+      cols = [tf.cast(c, tf.float32) for c in inputs]
+      return tf.concat(cols, axis=1) if len(cols) > 1 else cols[0]
+    return inputs
 
   @staticmethod
   def simplifications(spec):
